@@ -89,3 +89,7 @@ def run(rep, tier):
         rep.call(formulas.nearest_formula, rep, prog, "C11.formula")
         from . import c09
         rep.call(c09.state_fields, rep, prog, "C11.stateless")
+        # the row / column indices of the copied pixel are computed without wrapping
+        from . import c03
+        rep.call(c03.arith, rep, prog, "C11.arith",
+                 only=lambda f: "iter_rows_with_step" in f.name or "resample_nearest" in f.name)
